@@ -654,7 +654,7 @@ class _Undef:
         return False
 
     __add__ = __radd__ = __sub__ = __rsub__ = __mul__ = __rmul__ = __truediv__ = __rtruediv__ = _s
-    __floordiv__ = __rfloordiv__ = __mod__ = __rmod__ = __pow__ = __neg__ = __getitem__ = _s
+    __floordiv__ = __rfloordiv__ = __mod__ = __rmod__ = __pow__ = __neg__ = _s
     __lt__ = __le__ = __gt__ = __ge__ = __eq__ = __ne__ = __bool__ = _f
     __hash__ = object.__hash__
 
@@ -663,9 +663,6 @@ class _Undef:
 
     def __int__(self):
         return -(10 ** 9)
-
-    def __len__(self):
-        return 0
 
 
 UNDEF = _Undef()
